@@ -19,7 +19,7 @@ RULE = ("C01's schemas and reachable states (a valid prefix history), then faili
         "fields/include_field.py during loads/load; whenever such an operation raises, M-same compares values at all "
         "depths, user-defined flags and identities of nested configurations before/after; non-trivial = >= 2 "
         "raising listed operations judged; distinct = distinct (schema, history)")
-REQUIRED = ("failed_loads_with_late_or_chained_includes", "failed_loads_after_the_environment_changed", "foreign_items_rejected_by_a_second_configuration", "readonly_assignments_rejected", "rejected_replacements_through_an_equal_key_of_another_type", "dotted_continuations_into_nested_dicts_rejected", "derived_containers_rejected_by_field_validator", "list_reuse_rejections", "wrong_root_documents_rejected", "incomplete_objects_rejected", "incomplete_maps_rejected", "dotted_into_dict_rejections", "corrupt_include_files", "same_checks", "raised:set", "raised:set-sub", "raised:ctor", "raised:listop", "raised:dictop",
+REQUIRED = ("section_objects_refused_by_a_list", "failed_loads_with_late_or_chained_includes", "failed_loads_after_the_environment_changed", "foreign_items_rejected_by_a_second_configuration", "readonly_assignments_rejected", "rejected_replacements_through_an_equal_key_of_another_type", "dotted_continuations_into_nested_dicts_rejected", "derived_containers_rejected_by_field_validator", "list_reuse_rejections", "wrong_root_documents_rejected", "incomplete_objects_rejected", "incomplete_maps_rejected", "dotted_into_dict_rejections", "corrupt_include_files", "same_checks", "raised:set", "raised:set-sub", "raised:ctor", "raised:listop", "raised:dictop",
             "raised:loads-unparsable", "raised:loads-include", "failpoint_injections_raised")
 ASSUMPTIONS = ["only the kinds of operation listed in the property are judged (a tree that parses but fails validation "
                "half way, extend / slice / update with a bad element are outside the statement)",
@@ -334,6 +334,8 @@ def run(case, ctx, res):
     # container - and this configuration is unchanged
     if _foreign_item_rejections(drv, ctx, res) is False:
         return
+    if not _section_object_offered_to_a_list(ctx, res, len(case["ops"])):
+        return
     if len(case["ops"]) % 5 == 0 and not _failed_loads_after_environment_change(ctx, res, len(case["prefix"])):
         return
     if len(case["ops"]) % 5 == 1 and not _late_and_chained_includes(ctx, res, len(case["prefix"]) + len(case["ops"])):
@@ -518,6 +520,48 @@ def _late_and_chained_includes(ctx, res, seed):
                      "include key of a section (declared before the root's include field) the name of a missing file; the load raised, but "
                      "the configuration changed: %s" % (fmt, "; ".join(diff[:4])))
             return False
+    return True
+
+
+def _section_object_offered_to_a_list(ctx, res, seed):
+    """A configuration-type SECTION of one tree (or a free-standing object of the type), incomplete, is offered to a list of the
+    same type in a second tree and refused: it stays where it was - same parent, no container."""
+    from ..common import Snapshot
+
+    cc = ctx.cc
+    item = cc.Schema()
+    item.n = cc.IntField(required=True)
+    item.s = cc.StringField(default="s")
+    t = cc.make_type(item, "OfferedT", module="vf_types")
+    schema = cc.Schema()
+    schema.one = t
+    schema.many = cc.ListField(t, default=lambda: [])
+    a, b = schema(), schema()
+    obj = a.one if seed % 2 else t()
+    owner = (obj._parent, obj._container)
+    before_a, before_b = Snapshot(a), Snapshot(b)
+    for route in ("append", "insert", "extend", "slice"):
+        try:
+            if route == "append":
+                b.many.append(obj)
+            elif route == "insert":
+                b.many.insert(0, obj)
+            elif route == "extend":
+                b.many.extend([obj])
+            else:
+                b.many[0:0] = [obj]
+        except Exception:
+            res.count("section_objects_refused_by_a_list")
+            if obj._parent is not owner[0] or obj._container is not owner[1]:
+                res.viol("M-same", "foreign-item-ownership:section-object:" + route, "an incomplete %s of the list's item type was offered to "
+                         "a list of a second configuration (%s) and refused, but now it names %s as its parent" % (
+                             "section of another configuration" if seed % 2 else "free-standing object", route,
+                             "the second configuration" if obj._parent is b else "another object"))
+                return False
+            d = before_a.diff(Snapshot(a)) + before_b.diff(Snapshot(b))
+            if d:
+                res.viol("M-same", "foreign-item:section-object:" + route, "a refused %s changed a configuration: %s" % (route, "; ".join(d[:3])))
+                return False
     return True
 
 
